@@ -456,6 +456,10 @@ def isolated(chk, label, fn, args=(), timeout=900, max_restarts=6):
                 pr.kill()
             pr.join()
             last = prog.value.decode(errors="replace")
+            if not alive and pr.exitcode == -9:
+                # SIGKILL is never raised by the code under test: the system killed the child (out of memory, an outer timeout) - no verdict
+                chk.notes.append("%s: the child process was killed by the system (SIGKILL) in: %s - not a verdict" % (label, last))
+                return None
             what = "did not return within %ds" % timeout if alive else "crashed (signal %s)" % (-pr.exitcode if pr.exitcode else pr.exitcode)
             chk.violation("%s: the library %s in: %s" % (label, what, last),
                           {"label": label, "last_call": last, "how": what}, finding_key="crash:" + last)
